@@ -7,6 +7,7 @@ import (
 	"os"
 	"reflect"
 	"sort"
+	"strconv"
 	"strings"
 
 	"github.com/zclconf/go-cty/cty"
@@ -42,6 +43,8 @@ type immState struct {
 	Bytes [2][]byte
 	T     [2]cty.Type
 	P     cty.PathSet
+	// Args: one argument slice handed to Function.Call by several callers (it is the caller's)
+	Args []cty.Value
 	// PA: paths; PA[0] is a parent from which children are derived
 	PA [3]cty.Path
 	// Conv: conversions looked up once and retained (closures the library returned)
@@ -108,6 +111,7 @@ func newImmState1() *immState {
 	st.T[1] = cty.ObjectWithOptionalAttrs(map[string]cty.Type{"a": cty.List(cty.String), "b": cty.Number}, []string{"b"})
 	st.P = cty.NewPathSet(cty.GetAttrPath("a").IndexInt(0))
 	st.PA[0] = cty.GetAttrPath("a").IndexInt(0).GetAttr("x")
+	st.Args = []cty.Value{cty.StringVal("%s|%v").Mark(markM1), cty.StringVal("s").Mark(markM2), cty.ListVal([]cty.Value{cty.NumberIntVal(1).Mark(markM3)})}
 	st.Conv[0] = convert.GetConversionUnsafe(cty.Tuple([]cty.Type{cty.String, cty.Number}), cty.Tuple([]cty.Type{cty.String, cty.String}))
 	st.Conv[1] = convert.GetConversionUnsafe(cty.Map(cty.String), cty.Object(map[string]cty.Type{"k1": cty.String, "k2": cty.String}))
 	return st
@@ -140,6 +144,8 @@ func (st *immState) roots() (names []string, objs []interface{}) {
 	}
 	names = append(names, "P")
 	objs = append(objs, st.P)
+	names = append(names, "Args")
+	objs = append(objs, st.Args)
 	for i := range st.PA {
 		names = append(names, fmt.Sprintf("PA%d", i))
 		objs = append(objs, st.PA[i])
@@ -167,7 +173,7 @@ func fingerprintGlobals() map[string]string {
 	out := map[string]string{}
 	for pkg, vars := range packageGlobals() {
 		for name, ptr := range vars {
-			out[pkg+"."+name] = fingerprint(true, ptr)
+			out[pkg+"."+name] = strconv.FormatUint(fingerprintHash(true, ptr), 16)
 		}
 	}
 	return out
@@ -466,6 +472,24 @@ func c20Ops() []immOp {
 			}
 			st.P.Add(st.PA[1].Copy())
 			return cty.BoolVal(st.P.Has(st.PA[1]))
+		})
+	})
+	add("V4=FormatFunc.Call(shared Args) / ReturnTypeForValues(shared Args)", "", true, func(st *immState) (cty.Value, bool) {
+		return guard(func() cty.Value {
+			v, err := stdlib.FormatFunc.Call(st.Args)
+			must(err)
+			_, err = stdlib.FormatFunc.ReturnTypeForValues(st.Args)
+			must(err)
+			return v
+		})
+	})
+	add("V4=JSONEncodeFunc.Call(shared Args[2:]) / CoalesceFunc.Call(shared Args)", "", true, func(st *immState) (cty.Value, bool) {
+		return guard(func() cty.Value {
+			a, err := stdlib.JSONEncodeFunc.Call(st.Args[2:])
+			must(err)
+			b, err := stdlib.CoalesceFunc.Call(st.Args[:2])
+			must(err)
+			return cty.TupleVal([]cty.Value{a, b})
 		})
 	})
 	// --- accessor, then mutate the returned Go data
@@ -1013,6 +1037,7 @@ func runC20(c *Ctx) {
 	sys := &immSys{ops: c20Ops()}
 	c.Note("operation_alphabet", fmtInt(len(sys.ops)))
 	exploreE2(c, sys, depth, "history.")
+	c20Purity(c)
 	c20Concurrent(c, sys)
 }
 
